@@ -34,7 +34,12 @@ def make_spec(rng, force=None):
         "gl": rng.random() < 0.5,
         "kinds": rng.choice([["snv"], ["snv"], ["snv", "ins", "del", "mnp"]]),
         "odd_records": rng.random() < 0.3,
+        "read_len": rng.choice([[120, 380], [120, 380], [70, 170]]),
+        # index of a chromosome on which every sample is homozygous ALT everywhere (nothing to phase), or None
+        "all_hom_chrom": None,
     }
+    if rng.random() < 0.06:
+        spec["all_hom_chrom"] = rng.randrange(spec["nchrom"])
     return spec
 
 
@@ -43,7 +48,7 @@ def make_options(rng, spec, lists, distrust, ped):
     o = {"reads": bool(lists[0]), "gts": bool(lists[1]), "recs": bool(lists[2]), "distrust": bool(distrust),
          "ped": bool(ped), "include_homozygous": bool(distrust and rng.random() < 0.6),
          "recombrate": rng.choice([1.26, 10000, 300000, 1000000, 1000000]), "genmap": False, "chromosomes": None,
-         "no_genetic_haplotyping": rng.random() < 0.15}
+         "no_genetic_haplotyping": rng.random() < 0.4}
     nchrom = spec["nchrom"]
     x = rng.random()
     if ped and x < 0.2:
@@ -129,11 +134,15 @@ def build_scenario(spec, wd):
         for c in sc.chroms:
             child, _ = synth.inherit(rng, sc.haps[fa][c], sc.haps[mo][c], recomb_prob=spec["recomb_prob"])
             sc.haps[ch][c] = child
+    if spec.get("all_hom_chrom") is not None:
+        c = sc.chroms[spec["all_hom_chrom"]]
+        for s in samples:
+            sc.haps[s][c] = [(1, 1)] * len(sc.variants[c])
     ov = {}
     for s in samples:
         for c in sc.chroms:
             for i in range(len(sc.variants[c])):
-                if rng.random() < spec["gt_error"]:
+                if rng.random() < spec["gt_error"] and spec.get("all_hom_chrom") != sc.chroms.index(c):
                     lo, hi = sorted(sc.haps[s][c][i])
                     ov[(s, c, i)] = rng.choice([g for g in ("0/0", "0/1", "1/1") if g != f"{lo}/{hi}"])
     os.makedirs(wd, exist_ok=True)
@@ -142,7 +151,7 @@ def build_scenario(spec, wd):
     reads = []
     for s in samples:
         for c in sc.chroms:
-            reads += synth.simulate_reads(rng, sc, s, c, spec["nreads"], len_range=(120, 380))
+            reads += synth.simulate_reads(rng, sc, s, c, spec["nreads"], len_range=tuple(spec.get("read_len", (120, 380))))
     synth.write_bam(sc, reads, os.path.join(wd, "reads.bam"))
     with open(os.path.join(wd, "fam.ped"), "w") as f:
         for k, (ch, fa, mo) in enumerate(trios):
@@ -188,7 +197,10 @@ def phase_args(wd, sc, opt, tag, chromosomes="opt"):
 
 
 class RunFailed(Exception):
-    pass
+    def __init__(self, msg, insts=None, stderr=""):
+        super().__init__(msg)
+        self.insts = insts or []
+        self.stderr = stderr
 
 
 def run_phase(ctx, wd, sc, opt, tag, chromosomes="opt"):
@@ -199,9 +211,9 @@ def run_phase(ctx, wd, sc, opt, tag, chromosomes="opt"):
             os.unlink(p)
     args = phase_args(wd, sc, opt, tag, chromosomes)
     rc, out, err = run_cli(ctx, args, cwd=wd, env_extra={"WHATSHAP_VERIF_TRACE": trace})
-    if rc != 0:
-        raise RunFailed(f"whatshap phase exited with {rc}: {err[-1500:]}\nargs: {args}")
     insts = [json.loads(l) for l in open(trace)] if os.path.exists(trace) else []
+    if rc != 0:
+        raise RunFailed(f"whatshap phase exited with {rc}: {err[-1500:]}\nargs: {args}", insts, err)
     return insts
 
 
@@ -339,7 +351,8 @@ def case_term(opt, in_vcf, out_vcf, insts, files, intern, sc_chroms, inst_recs):
     if inst_recs is None:
         ir = Raw("None")
     else:
-        ir = Raw("(Some " + term([[Raw(T("mkCE", *[term(x) for x in e])) for e in es] for es in inst_recs]) + ")")
+        ir = Raw("(Some " + term([Raw("None") if es is None else Raw("(Some " + term([Raw(T("mkCE", *[term(x) for x in e])) for e in es]) + ")")
+                                  for es in inst_recs]) + ")")
     return T("mkCase", o, term(opt["distrust"]), term(ids_t), term([intern(s) for s in samples]), term(cs), ob, ir)
 
 
@@ -363,11 +376,16 @@ def real_inst_recs(ins, wd, intern, suffix=""):
     args = (ins["chromosome"], list(ins["accessible_positions"]), dict(map(tuple, ins["components"])),
             list(ins["recombination_costs"]), list(ins["transmission_vector"]), trios)
     first = list(inspect.signature(write_recombination_list).parameters)[0]
-    if first == "path":
-        write_recombination_list(p, *args)
-    else:
-        with open(p, "w") as f:
-            write_recombination_list(f, *args)
+    try:
+        if first == "path":
+            write_recombination_list(p, *args)
+        else:
+            with open(p, "w") as f:
+                write_recombination_list(f, *args)
+    except AssertionError:
+        if os.path.exists(p):
+            os.unlink(p)
+        return None
     lines = parse_list_file(p, "recs", intern)
     os.unlink(p)
     if lines and lines[0] == "H":
